@@ -42,6 +42,20 @@ Definition c09_assign_vv {X Y : Type} (f : X -> Y -> X) (v : list X) (w : list Y
   let r := c09_map2 f v w in (r, r).
 Definition c09_assign_vs {X Y : Type} (f : X -> Y -> X) (v : list X) (s : Y) : list X * list X :=
   let r := c09_map_vs f v s in (r, r).
+(* v @= s where s is a REFERENCE TO LANE k OF v ITSELF (v /= v[0], v -= Simd::lane(2, v)): the operator takes its scalar operand
+   BY VALUE (loop.hh: `operator @=(const Simd::Scalar<T> s)`), i.e. the operand is snapshotted before the per-lane loop *)
+Definition c09_assign_vs_lane {X : Type} (f : X -> X -> X) (d : X) (v : list X) (k : nat) : list X * list X :=
+  c09_assign_vs f v (nth k v d).
+(* the variant that is NOT the code: scalar operand taken by reference, re-read in every iteration of  for(i<S) v[i] @= s  *)
+Fixpoint c09_list_upd {X : Type} (i : nat) (x : X) (v : list X) : list X :=
+  match v, i with
+  | [], _ => []
+  | _ :: r, O => x :: r
+  | y :: r, S i' => y :: c09_list_upd i' x r
+  end.
+Definition c09_assign_vs_lane_byref {X : Type} (f : X -> X -> X) (d : X) (v : list X) (k : nat) : list X :=
+  fold_left (fun w i => c09_list_upd i (f (nth i w d) (nth k w d)) w) (seq 0 (length v)) v.
+
 (* ++v / --v : (value of the expression, new v);  v++ / v-- : (old v, new v) *)
 Definition c09_prefix {X : Type} (f : X -> X) (v : list X) : list X * list X := let r := map f v in (r, r).
 Definition c09_postfix {X : Type} (f : X -> X) (v : list X) : list X * list X := (v, map f v).
@@ -162,7 +176,10 @@ Definition c09_op_ltsel_min : nat := 5.   (* ltsel_min(m, x) = (x < m) ? x : m *
 Inductive c09_form : Type :=
 | C09_Unary | C09_VV | C09_VS | C09_SV | C09_AssignVV | C09_AssignVS | C09_Prefix | C09_Postfix
 | C09_Cond | C09_CondBool | C09_AnyTrue | C09_AllTrue | C09_AnyFalse | C09_AllFalse
-| C09_HMax | C09_HMin | C09_LaneAll | C09_Bcast | C09_ImplCast | C09_MaskOr | C09_MaskAnd.
+| C09_HMax | C09_HMin | C09_LaneAll | C09_Bcast | C09_ImplCast | C09_MaskOr | C09_MaskAnd
+(* aliasing forms: the scalar operand is (a reference to) lane k of operand a itself, the vector operand is a itself *)
+| C09_AssignVSLane (k : nat) | C09_VSLane (k : nat) | C09_SVLane (k : nat) | C09_VVSelf | C09_AssignVVSelf
+| C09_CondSelf | C09_CondSame | C09_CondMask.
 
 (* symbolic cond on terms: the mask lane is itself a term *)
 Fixpoint c09_cond_sym (m a b : list c09_term) : list c09_term :=
@@ -203,6 +220,15 @@ Definition c09_plan (f : c09_form) (op : nat) (S m : nat) : list (list c09_term)
   | C09_ImplCast => [c09_implcast (C09_K false) (S * m) a]
   | C09_MaskOr => [c09_map2 (c09_app2 c09_op_or) (c09_map (c09_app1 op) a) (c09_map (c09_app1 op) b)]
   | C09_MaskAnd => [c09_map2 (c09_app2 c09_op_and) (c09_map (c09_app1 op) a) (c09_map (c09_app1 op) b)]
+  (* operands are read BEFORE the operation: every lane combines with the ORIGINAL lane k *)
+  | C09_AssignVSLane k => let r := c09_assign_vs_lane (c09_app2 op) (C09_K false) a k in [fst r; snd r]
+  | C09_VSLane k => [c09_map_vs (c09_app2 op) a (nth k a (C09_K false))]
+  | C09_SVLane k => [c09_map_sv (c09_app2 op) (nth k a (C09_K false)) a]
+  | C09_VVSelf => [c09_map2 (c09_app2 op) a a]
+  | C09_AssignVVSelf => let r := c09_assign_vv (c09_app2 op) a a in [fst r; snd r]
+  | C09_CondSelf => [c09_cond_sym a b c]           (* b = cond(m, b, c) *)
+  | C09_CondSame => [c09_cond_sym a b b]           (* cond(m, b, b) *)
+  | C09_CondMask => [c09_cond_sym b b c]           (* b = cond(b, b, c) for mask types *)
   end.
 
 (* ------------------------------------------------------------------------------------------ *)
